@@ -28,6 +28,7 @@ def run(repo, run, tier):
     dtime(repo, run)
     proposal_store(repo, run)
     final_step(repo, run)
+    preloop_store(repo, run)
 
 
 def kind_rules(repo, run, rid="C04.1"):
@@ -156,3 +157,42 @@ def final_step(repo, run):
         run.report("C04.5", DS, m.loop, "the clamp of the last step to `tf - t[counter]` was not found under a test", text="missing clamp")
         return
     _final_predicate(run, rid, m, c, fs, rule_id="C04.5")
+
+
+def preloop_store(repo, run):
+    """'every recorded step except possibly the last has exactly the requested magnitude': before the loop integrate() may shorten the requested step only when it
+    is longer than the whole remaining span, in magnitude"""
+    from .c03 import _abs_arg, _is_remaining
+    from ..sym import path_condition, tree_atoms, equivalent, BoolTracker
+    from ..imodel import path_key
+    rid = run.rule("C04.6", "before the step loop integrate() overwrites the requested step only under |self.dt| > |tf - t[counter]| (magnitudes on both sides): a "
+                            "signed comparison shortens every backward run's step to half the span", floor=1)
+    m = IntegrateModel(repo)
+    c = m.canon
+    kl = path_key(m.loop, m.fn)
+    stores = [st for st in walk_no_nested(m.fn) if isinstance(st, (ast.Assign, ast.AugAssign)) and path_key(st, m.fn) < kl and
+              any(is_self_attr(t, "dt") or is_self_attr(t, "__dt") for t in (st.targets if isinstance(st, ast.Assign) else [st.target]))]
+    if not stores:
+        run.judged(rid, "no store to the step before the loop", nontrivial=False)
+        return
+    for st in stores:
+        bt = BoolTracker(canon=c)
+        pc, _ = path_condition(st, m.fn, tracker=bt, guards=False)
+        atoms = tree_atoms(pc)
+        good = []
+        for a in atoms:
+            leaf = bt.leaves.get(a)
+            if isinstance(leaf, tuple):
+                left, op, right = leaf
+                for x, y, ops in ((left, right, (ast.Gt, ast.GtE)), (right, left, (ast.Lt, ast.LtE))):
+                    ax, ay = _abs_arg(x), _abs_arg(y)
+                    if ax is not None and ay is not None and isinstance(op, ops) and is_self_attr(ax) and ax.attr in ("dt", "__dt") and _is_remaining(m, c, ay):
+                        good.append(a)
+        others = [a for a in atoms if a not in good and not a.split("@")[0].startswith(("t Is None", "None Is t"))]
+        ok = len(good) == 1 and not others and equivalent(pc, lambda asg: asg[good[0].split("@")[0]])[0] if len(good) == 1 and not others else False
+        # value stored: a fraction (0 < k <= 1) of the remaining span in magnitude is not judged here (C03 kinds do); only WHEN it is stored
+        run.judged(rid, "pre-loop store `%s` under %s" % (src(st)[:60], [a.split("@")[0] for a in atoms]), ok=ok)
+        if not ok:
+            run.report("C04.6", DS, st, "the requested step is overwritten before the loop under a condition that is not `|self.dt| > |tf - t[counter]|` (atoms: %s): "
+                                        "for some sign of the times or direction a run with |dt| <= |span| no longer takes steps of the requested size" % (
+                                            [a.split("@")[0] for a in atoms],))
